@@ -1,5 +1,5 @@
 #!/bin/bash
 # tools/runall.sh [tier] : run every claimed check (4 at a time), print one summary line per property
-TIER=${1:-quick}; cd /verif; rm -f /tmp/runall_*.log
-for p in $(cat harness/ready.txt); do echo $p; done | OMP_NUM_THREADS=1 xargs -P 4 -I{} sh -c "timeout 7200 ./check {} --tier $TIER > /tmp/runall_{}.log 2>&1; echo {} rc=\$? >> /tmp/runall_rc.log"
-for p in $(cat harness/ready.txt); do echo "== $p $(grep "^$p rc" /tmp/runall_rc.log | tail -n 1)"; grep -E "^VIOLATION|^KNOWN|^\[C" /tmp/runall_$p.log | cut -c1-180; done
+TIER=${1:-quick}; L=${RUNALL_LOGDIR:-/tmp}; P=${RUNALL_PAR:-4}; cd "$(dirname "$0")/.."; mkdir -p $L; rm -f $L/runall_*.log
+for p in $(cat harness/ready.txt); do echo $p; done | OMP_NUM_THREADS=1 xargs -P $P -I{} sh -c "timeout 7200 ./check {} --tier $TIER > $L/runall_{}.log 2>&1; echo {} rc=\$? >> $L/runall_rc.log"
+for p in $(cat harness/ready.txt); do echo "== $p $(grep "^$p rc" $L/runall_rc.log | tail -n 1)"; grep -E "^VIOLATION|^KNOWN|^\[C" $L/runall_$p.log | cut -c1-180; done
